@@ -4,7 +4,6 @@ from __future__ import annotations
 import ast
 
 from sa.astx import call_name, src, statements
-from sa.domains import escaper_problems, replace_chain
 from sa.selftest import Mutant, Silent
 from sa.source import AnalysisError
 from sa.props._lib_i import sect, COMPAT, BlockRaised, Raised, eval_block, interp, module_env, words
@@ -48,15 +47,25 @@ def check(ctx):
     with sect(ctx, 'writer as an ordered rewrite system'):
         fq = ctx.func(EP, "quoteStringArgument")
         q = base + "quoteStringArgument"
-        pairs = replace_chain(fq)
-        ctx.need(pairs, f"replace chain of {q}")
-        esc_candidates = {n[0] for o, n in pairs if isinstance(n, str) and len(n) == 2 and n[1] == o}
-        ctx.check(len(esc_candidates) == 1 and all(len(n) == 2 and n[1] == o for o, n in pairs), "quote/escape-form", q,
-                  f"rewrites {pairs!r} are not all of the form unit -> escape + unit with one escape unit")
-        esc = next(iter(esc_candidates)) if len(esc_candidates) == 1 else "\\"
-        probs = escaper_problems(pairs, esc)
-        ctx.check(not probs, "quote/escaper-order", q, "; ".join(probs))
-        written = {o for o, _ in pairs}
+        quote = interp(fq, funcs, env0)
+        units = [chr(c) for c in range(0x20, 0x7F)] + ["\t", "\n", "\u00e9"]
+        outs = {}
+        for u in units:
+            got, err = _call(quote, u)
+            if err is not None:
+                raise AnalysisError(f"{q}({u!r}) not evaluable: {err}")
+            outs[u] = got
+        written = {u for u in units if outs[u] != u}
+        escs = {outs[u][0] for u in written if isinstance(outs[u], str) and len(outs[u]) == 2 and outs[u][1] == u}
+        ctx.check(len(escs) == 1 and all(len(outs[u]) == 2 and outs[u][1] == u for u in written), "quote/escape-form", q,
+                  f"rewrites { {u: outs[u] for u in sorted(written)} !r} are not all of the form unit -> escape + unit with one escape unit")
+        esc = next(iter(escs)) if len(escs) == 1 else "\\"
+        for t in ("".join(sorted(written)), "".join(sorted(written, reverse=True)), esc + esc + ":", "a" + esc):
+            got, err = _call(quote, t)
+            want = "".join((esc + c) if c in written else c for c in t)
+            ctx.check(err is None and got == want, "quote/escaper-order", f"{q} | {t!r}",
+                      f"quoteStringArgument({t!r}) gives {(got if err is None else err)!r} instead of {want!r}: the escape unit must be escaped first, else the "
+                      "backslashes added for other characters are doubled (or the escape unit itself is not escaped)")
 
     # ---- reader transition table --------------------------------------------------------------------------------------------------
     with sect(ctx, 'reader transition table'):
@@ -127,12 +136,28 @@ def check(ctx):
         ctx.check(list(r.out) == [(kinds[0], "tail")], "tokenize/transition", q + " | end of input", f"at end of input the pending token is emitted as {list(r.out)!r}")
     # ---- K10: every unit the reader treats specially is escaped by the writer ---------------------------------------------------------
     with sect(ctx, 'K10: every unit the reader treats specially is escaped by the writer'):
-        for u in sorted(specials | {esc}):
+        ft = ctx.func(EP, "_tokenize")
+        tok = interp(ft, funcs, env0)
+        S = env0["_STRING"]
+        rspecials, resc = set(), set()
+        for u in [chr(c) for c in range(0x20, 0x7F)] + ["\t", "\n", "\u00e9"]:
+            plain = "a" + u + "b"
+            t1, e1 = _call(tok, plain)
+            t2, e2 = _call(tok, "k=" + plain)
+            if e1 is not None or e2 is not None:
+                raise AnalysisError(f"_tokenize not evaluable on {plain!r}: {e1 or e2}")
+            t1, t2 = list(t1), list(t2)
+            if t1 == [(S, "ab")]:
+                resc.add(u)
+            if t1 != [(S, plain)] or not t2 or t2[-1] != (S, plain):
+                rspecials.add(u)
+        ctx.check(len(resc) == 1 and resc <= written, "quote/covers-reader-specials", f"{base}quoteStringArgument | reader's escape unit",
+                  f"_tokenize treats {sorted(resc)!r} as 'next unit is literal'; quoteStringArgument escapes {sorted(written)!r}")
+        for u in sorted(rspecials):
             ctx.check(u in written, "quote/covers-reader-specials", f"{base}quoteStringArgument | reader-special {u!r}",
                       f"_tokenize gives {u!r} a special meaning ({'escape' if u == esc else 'argument / keyword separator'}) but quoteStringArgument does not escape it: "
                       + ("a quoted positional argument containing '=' is parsed as a keyword" if u == "=" else "the quoted text is split or altered when parsed"))
-        if not any(o["rule"] == "tokenize/transition" and o["verdict"] != "holds" for o in ctx.obligations):
-            ctx.floor("quote/covers-reader-specials", len(specials), 2)
+        ctx.floor("quote/covers-reader-specials", len(rspecials), 2)
 
     # ---- bounded round trip through _parse --------------------------------------------------------------------------------------------------
     with sect(ctx, 'bounded round trip through _parse'):
@@ -187,6 +212,7 @@ MUTANTS = [
            expect_rule="quote/covers-reader-specials"),
     Mutant("colon-escaped-before-backslash", EP, "    for c in backslash, colon, equals:\n", "    for c in colon, backslash, equals:\n", expect_rule="quote/escaper-order"),
     Mutant("backslash-not-escaped", EP, "    for c in backslash, colon, equals:\n", "    for c in colon, equals:\n", expect_rule="quote/"),
+    Mutant("quote-by-regex-without-equals", EP, _Q, '    return re.sub(r"([\\\\:])", r"\\\\\\1", argument)\n', expect_rule="quote/covers-reader-specials"),
     Mutant("escape-keeps-backslash", EP, "            current += next(iterdesc)\n", "            current += n + next(iterdesc)\n", expect_rule="tokenize/transition"),
     Mutant("tokenizer-escape-only-for-colon", EP, "        elif n == backslash:\n            current += next(iterdesc)\n",
            "        elif n == backslash:\n            nxt = next(iterdesc)\n            current += nxt if nxt == colon else n + nxt\n", expect_rule="tokenize/transition"),
@@ -198,6 +224,8 @@ MUTANTS = [
 ]
 SILENT = [
     Silent("quote-explicit-chain", EP, _Q, '    backslash, colon, equals = "\\\\:="\n    argument = argument.replace(backslash, backslash + backslash).replace(equals, backslash + equals).replace(colon, backslash + colon)\n'),
+    Silent("quote-by-regex", EP, _Q, '    return re.sub(r"([\\\\:=])", r"\\\\\\1", argument)\n'),
+    Silent("quote-char-by-char", EP, _Q, '    return "".join("\\\\" + ch if ch in "\\\\:=" else ch for ch in argument)\n'),
     Silent("tokenizer-membership-spelling", EP, "        if n in iterbytes(ops):\n", "        if n in ops:\n"),
     Silent("parse-tuple-concat", EP, "            sofar += (value,)\n", "            sofar = sofar + (value,)\n"),
 ]
